@@ -529,7 +529,8 @@ class SubscriptionsManagerBase:
         except http.client.NotConnected as ex:
             # this is an error related to the connection => log error and continue
             self._logger.error('could not send notification report: {!r}:  subscr = {}', ex, subscription)  # noqa: PLE1205, TRY400
-        except TimeoutError as ex:
+        except OSError as ex:
+            # (TimeoutError, connection reset, failed TLS handshake, ...)
             # this is an error related to the connection => log error and continue
             self._logger.error('could not send notification report error= {!r}: {}', ex, subscription)  # noqa: PLE1205, TRY400
         except etree.DocumentInvalid as ex:
